@@ -36,6 +36,7 @@ import json
 from harness import core, tables_io
 from harness import coder_io as C
 from harness import coderprops as P
+from harness import c05widths
 
 PROP = 'C05'
 
@@ -804,6 +805,45 @@ def random_part(ctx, drv, treq, count):
                 report(ctx, stage, why, c, dict(extra, note=c.note))
 
 
+# ---------------------------------------------------------------------------------------------
+# (e) every width modifier x all special packed integers x all column shapes (harness/c05widths.py)
+def widths_part(ctx, drv, treq):
+    rng = ctx.rng('widths')
+    wp = c05widths.WidthProbes(rng, thorough=ctx.tier != 'quick')
+    cases = wp.all_cases(str_column)
+    for start in range(0, len(cases), 100):
+        chunk = cases[start:start + 100]
+        for c, probs, info in evaluate(drv, treq, chunk, rng):
+            tally(ctx, c, info, 'widths')
+            sp, cols, notes = c.wspec
+            ctx.count('widths:modifier-' + sp.mod)
+            ctx.count('widths:columns', len(cols))
+            for nt in notes:
+                ctx.count('widths:' + nt)
+            if sp.kind != 's':
+                ctx.count('widths:%s' % ('widened' if sp.w > sp.nb else 'narrowed' if sp.w < sp.nb else 'width-unchanged'))
+                for col in cols:
+                    if sp.w != sp.nb and sp.nb > 1 and (1 << sp.nb) - 1 in col:
+                        ctx.count('widths:columns-holding-the-all-ones-value-of-the-table-b-width')
+            if info.get('enc') and info['enc'] != ('ok', 'ok'):
+                report(ctx, 'encode', 'conforming values refused: compressed %s, uncompressed %s' % info['enc'], c, {'note': c.note})
+                continue
+            if probs:
+                stage, why, extra = probs[0]
+                if may_shrink(ctx):
+                    done = False
+                    for c1 in wp.single_columns(c):
+                        r = evaluate(drv, treq, [c1], ctx.rng('shrink-k'))[0]
+                        pr = [p for p in r[1] if p[0] == stage]
+                        if pr:
+                            report(ctx, stage, pr[0][1], c1, dict(pr[0][2], note=c1.note))
+                            done = True
+                            break
+                    if done:
+                        continue
+                report(ctx, stage, why, c, dict(extra, note=c.note))
+
+
 def ncols_of(ids):
     """number of values a part of `Slots` / `directed_cases` takes per subset"""
     f = ids[0] // 1000
@@ -826,6 +866,7 @@ def run(ctx):
     ctx.assumptions = ['a missing value for a 1-bit field is not a conforming input (FM 94 has no missing value for 1-bit fields); never generated',
                        'numeric entries are below the all-ones pattern of their field (the property\'s raw domain); code/flag entries may reach it']
     random_part(ctx, drv, treq, 260 if quick else 6000)
+    widths_part(ctx, drv, treq)
     generated_part(ctx, drv, treq, 540 if quick else 12000)
     corpus_part(ctx, drv)
     exhaustive_part(ctx, drv, treq, 3 if quick else 4)
